@@ -398,5 +398,137 @@ theorem item_spells (fl : FmtLaws ro fmt pr) (it : Item R) (h : ItemV ro it) :
       rw [vdepthL_zero (toLex ∘ tdaQ ro) xs (fun x _ => tdaQ_depth ro x)]
       decide
 
+
+-- operations
+
+def ColorV : Color R → Prop
+  | .other args => ∀ p ∈ args, PrimV ro p ∧ PdfSyntax.vdepth (toLex p) ≤ PdfLex.maxDepth
+  | _ => True
+
+/-- an operation the serializer accepts, over values of the Rust types: finite reals, `Primitive` operands that
+    are proper values nested within `MAX_DEPTH`, not an inline image -/
+def OpV (op : Op R) : Prop :=
+  finiteOp ro op = true ∧
+  match op with
+  | .beginMarkedContent _ (some p) => PrimV ro p ∧ PdfSyntax.vdepth (toLex p) ≤ PdfLex.maxDepth
+  | .markedContentPoint _ (some p) => PrimV ro p ∧ PdfSyntax.vdepth (toLex p) ≤ PdfLex.maxDepth
+  | .strokeColor c => ColorV ro c
+  | .fillColor c => ColorV ro c
+  | .inlineImage _ => False
+  | _ => True
+
+local macro "items_case" h:ident hv:ident : tactic => `(tactic|
+  (simp [serItems] at $h:ident; subst $h:ident
+   simp only [finiteOp, finitePt, finiteMatrix, finiteColor, Bool.and_eq_true] at $hv:ident
+   refine ⟨?_, by dsimp only; decide⟩
+   simp [ItemV, ptItems, matrixItems, *]))
+
+/-- the operands of one iteration are writable items, the keyword is an operator keyword -/
+theorem serItems_itemV (s : SState R) (op : Op R) (rest : List (Op R)) (x : SerItems R)
+    (hv : OpV ro op) (hfr : ∀ o ∈ rest.take x.extra, finiteOp ro o = true) (h : serItems ro s op rest = some x) :
+    (∀ it ∈ x.operands, ItemV ro it) ∧ kwOK (strBytes x.kw) = true := by
+  obtain ⟨hf, hp⟩ := hv
+  cases op
+  case inlineImage img => simp [serItems] at h
+  case beginMarkedContent tag p =>
+    cases p with
+    | none => simp [serItems] at h; subst h; exact ⟨by simp [ItemV], by dsimp only; decide⟩
+    | some q => simp [serItems] at h; subst h; exact ⟨by simpa [ItemV] using hp, by dsimp only; decide⟩
+  case markedContentPoint tag p =>
+    cases p with
+    | none => simp [serItems] at h; subst h; exact ⟨by simp [ItemV], by dsimp only; decide⟩
+    | some q => simp [serItems] at h; subst h; exact ⟨by simpa [ItemV] using hp, by dsimp only; decide⟩
+  case strokeColor c =>
+    cases c with
+    | other args =>
+      simp [serItems, colorItems] at h; subst h
+      exact ⟨by simpa [ItemV, ColorV] using hp, by dsimp only; decide⟩
+    | _ =>
+      simp [serItems, colorItems] at h; subst h
+      simp only [finiteOp, finiteColor, Bool.and_eq_true] at hf
+      exact ⟨by simp [ItemV, *], by dsimp only; decide⟩
+  case fillColor c =>
+    cases c with
+    | other args =>
+      simp [serItems, colorItems] at h; subst h
+      exact ⟨by simpa [ItemV, ColorV] using hp, by dsimp only; decide⟩
+    | _ =>
+      simp [serItems, colorItems] at h; subst h
+      simp only [finiteOp, finiteColor, Bool.and_eq_true] at hf
+      exact ⟨by simp [ItemV, *], by dsimp only; decide⟩
+  case fillAndStroke w => cases w <;> (simp [serItems] at h; subst h; exact ⟨by simp, by dsimp only; decide⟩)
+  case fill w => cases w <;> (simp [serItems] at h; subst h; exact ⟨by simp, by dsimp only; decide⟩)
+  case clip w => cases w <;> (simp [serItems] at h; subst h; exact ⟨by simp, by dsimp only; decide⟩)
+  case close =>
+    simp only [serItems] at h
+    split at h <;> (simp at h; subst h; exact ⟨by simp, by dsimp only; decide⟩)
+  case textNewline =>
+    simp only [serItems] at h
+    split at h <;> (simp at h; subst h; exact ⟨by simp [ItemV], by dsimp only; decide⟩)
+  case wordSpacing ws =>
+    simp only [serItems] at h
+    split at h
+    · rename_i cs text tl
+      simp at h; subst h
+      have hcs := hfr (.charSpacing cs) (by simp)
+      simp only [finiteOp] at hf hcs
+      exact ⟨by simp [ItemV, hf, hcs], by dsimp only; decide⟩
+    · simp at h; subst h
+      simp only [finiteOp] at hf
+      exact ⟨by simp [ItemV, hf], by dsimp only; decide⟩
+  case leading l =>
+    simp only [serItems] at h
+    split at h
+    · rename_i t tl
+      split at h
+      · simp at h; subst h
+        have ht := hfr (.moveTextPosition t) (by simp)
+        simp only [finiteOp, finitePt, Bool.and_eq_true] at ht
+        exact ⟨by simp [ItemV, ptItems, ht], by dsimp only; decide⟩
+      · simp at h; subst h
+        simp only [finiteOp] at hf
+        exact ⟨by simp [ItemV, hf], by dsimp only; decide⟩
+    · simp at h; subst h
+      simp only [finiteOp] at hf
+      exact ⟨by simp [ItemV, hf], by dsimp only; decide⟩
+  case curveTo c1 c2 p =>
+    simp only [serItems] at h
+    simp only [finiteOp, finitePt, Bool.and_eq_true] at hf
+    split at h
+    · simp at h; subst h; exact ⟨by simp [ItemV, ptItems, hf], by dsimp only; decide⟩
+    · split at h
+      · simp at h; subst h; exact ⟨by simp [ItemV, ptItems, hf], by dsimp only; decide⟩
+      · simp at h; subst h; exact ⟨by simp [ItemV, ptItems, hf], by dsimp only; decide⟩
+  case lineJoin j =>
+    simp [serItems] at h; subst h
+    exact ⟨by simp [ItemV]; omega, by dsimp only; decide⟩
+  case lineCap j =>
+    simp [serItems] at h; subst h
+    exact ⟨by simp [ItemV]; omega, by dsimp only; decide⟩
+  case textRenderMode j =>
+    simp [serItems] at h; subst h
+    exact ⟨by simp [ItemV]; omega, by dsimp only; decide⟩
+  case renderingIntent i =>
+    simp [serItems] at h; subst h
+    exact ⟨by simp [ItemV], by dsimp only; decide⟩
+  case dash pat ph =>
+    simp [serItems] at h; subst h
+    simp only [finiteOp, Bool.and_eq_true] at hf
+    refine ⟨?_, by dsimp only; decide⟩
+    intro it hit
+    simp only [List.mem_cons, List.mem_nil_iff, or_false] at hit
+    rcases hit with rfl | rfl
+    · exact hf.1
+    · exact hf.2
+  case textDrawAdjusted arr =>
+    simp [serItems] at h; subst h
+    simp only [finiteOp] at hf
+    refine ⟨?_, by dsimp only; decide⟩
+    intro it hit
+    simp only [List.mem_cons, List.mem_nil_iff, or_false] at hit
+    subst hit
+    exact hf
+  all_goals items_case h hf
+
 end
 end ContentBytes
